@@ -20,15 +20,23 @@ def main():
     only_validate = "--validate-only" in sys.argv
     src = os.path.join(wt, "_mutation", mdir)
     patch = os.path.join(src, "patch.diff")
-    dst = os.path.join("/verif/seeded", sid)
+    benign = "--benign" in sys.argv      # a property-preserving rewrite: every check must stay quiet
+    dst = os.path.join("/verif/seeded_benign" if benign else "/verif/seeded", sid)
     os.makedirs(dst, exist_ok=True)
-    for f in ("patch.diff", "demo.rs", "notes.md"):
+    for f in ("patch.diff", "demo.rs", "notes.md", "validated.json"):
         if os.path.exists(os.path.join(src, f)):
             shutil.copy(os.path.join(src, f), os.path.join(dst, f))
     meta = dict(id=sid, breaks_property=prop, checks_run=checks.split(","), validated={}, results={})
+    if benign:
+        meta = dict(id=sid, rewrites_code_of=prop, expect="no alarm", checks_run=checks.split(","), validated={}, results={})
+    if os.path.exists(os.path.join(dst, "validated.json")):
+        try:
+            meta["validated"] = json.load(open(os.path.join(dst, "validated.json")))
+        except Exception:
+            pass
     if os.path.exists(os.path.join(dst, "meta.json")):
         old = json.load(open(os.path.join(dst, "meta.json")))
-        meta["validated"] = old.get("validated", {})
+        meta["validated"] = old.get("validated", {}) or meta["validated"]
         meta["needs"] = old.get("needs", "")
         for k in ("history", "round", "what_was_run"):
             if k in old:
@@ -87,7 +95,8 @@ def main():
             rc, out = sh("./check %s --tier quick" % c, cwd=VERIF, timeout=3000)
             viol = [l for l in out.splitlines() if l.startswith("VIOLATION")]
             fi = [l for l in out.splitlines() if "failing input" in l][:3]
-            meta["results"][c] = dict(exit=rc, violations=len(viol), detected=(rc == 1 and len(viol) > 0),
+            nf = [l for l in viol if l.rstrip().endswith("no-failing-input-found")]
+            meta["results"][c] = dict(exit=rc, violations=len(viol), no_failing_input_found=len(nf), detected=(rc == 1 and len(viol) > 0),
                                       first=(fi[0][:300] if fi else (viol[0] if viol else "")), wall_s=round(time.time() - t0))
             print(c, "exit", rc, "violations", len(viol), (fi[0][:200] if fi else ""))
             if rc not in (0, 1):
